@@ -1,29 +1,36 @@
-(* C02 for networks WITH observers that write (coq/PropSimAct.v), end to end on the executable model: after any history of a growing
-   network (coq/PropMove.v: new properties, plain observers, immediate bindings - fresh, late, rebinding -, reset, destruction of unread
-   properties, both moves, assignments) followed by any history that attaches observers - plain ones, and observers of valueChanged that
-   assign the announced value to another property - and assigns inputs, every immediately bound property equals its expression recomputed
-   over the current values, whenever the calls returned normally. *)
+(* C02 end to end with writing observers of BOTH signals (coq/PropSimAct2.v): after any history of a growing network (coq/PropMove.v) followed
+   by any history that attaches observers - plain ones, observers of valueChanged that write another property, observers of
+   valueAboutToChange of UNBOUND properties that write another property - and assigns inputs, every immediately bound property equals its
+   expression recomputed over the current values. *)
 From Coq Require Import List Arith ZArith Lia Bool.
 Import ListNotations.
-From KDB Require Import Util UtilProofs PropDefs PropFlags PropLink PropLinkBasics PropLinkOps PropLinkTheorems PropSim PropGrow PropSimAct.
-From KDB Require PropAbs PropAbsProofs PropAbsAct PropProofs PropCheck PropGrowMore PropMove.
+From KDB Require Import Util UtilProofs PropDefs PropFlags PropLink PropLinkBasics PropLinkOps PropLinkTheorems PropSim PropGrow PropSimAct PropSimAct2 PropGrowAct.
+From KDB Require PropAbs PropAbsProofs PropAbsAct PropAbsAct2 PropProofs PropCheck PropGrowMore PropMove.
 
 Module AP := PropAbsProofs.
 Module C := PropAbsAct.
 
-Section GrowAct.
+Section GrowAct2.
   Variable fn : nat -> list Z -> option Z.
   Variable rtl : bool.
   Notation COH := (PropSim.COH fn).
-  Notation SCA := PropSimAct.SCA.
+  Notation SCB := PropSimAct2.SCB.
 
-  Lemma SCA_log e w : SCA w -> SCA (log e w).
+  Lemma SCB_log e w : SCB w -> SCB (log e w).
   Proof. intros (Hinv & Hna & Hsi). split; [eapply pinv_views; [apply views_log|exact Hinv]|split; [exact Hna|exact Hsi]]. Qed.
 
-  (* attaching an observer - plain, or one that writes *)
-  Lemma act_observe fuel w p k label h act w' :
-    SCA w -> COH w -> (act = None \/ (k = KChanged /\ exists tgt, act = Some (false, tgt))) ->
-    step1 fn rtl fuel w (PObserve p k label h act) = (w', None) -> SCA w' /\ COH w'.
+  Lemma unbound_sub w p k sub h w1 q : sub_ext w p k sub h w1 -> PropSimAct2.unbound w q -> PropSimAct2.unbound w1 q.
+  Proof.
+    intros E (v & Pv & Uv). destruct (pview w1 q) as [v1|] eqn:P1.
+    - exists v1. split; [exact P1|]. rewrite (se_upd _ _ _ _ _ _ E q v v1 Pv P1). exact Uv.
+    - apply (se_pdom _ _ _ _ _ _ E) in P1. congruence.
+  Qed.
+
+  (* attaching an observer: plain, writing on valueChanged, or writing on valueAboutToChange of an unbound property *)
+  Lemma act2_observe fuel w p k label h act w' :
+    SCB w -> COH w ->
+    (act = None \/ (exists tgt, act = Some (false, tgt)) /\ (k = KChanged \/ (k = KAbout /\ PropSimAct2.unbound w p))) ->
+    step1 fn rtl fuel w (PObserve p k label h act) = (w', None) -> SCB w' /\ COH w'.
   Proof.
     intros (Hinv & Hna & Hsi) HC Hact H.
     assert (Hinv' : pinv w') by (eapply (observe_pinv fn rtl fuel); eauto; exact I).
@@ -34,55 +41,63 @@ Section GrowAct.
     - split; [exact Hinv'|]. split.
       + intros t pos ser label0 a Hsl. assert (Hsl1 : slot_at w1 t pos ser (SObs label0 (Some a))) by exact Hsl.
         destruct (se_new _ _ _ _ _ _ E _ _ _ _ Hsl1) as [Hold|(Et & _ & _ & Es)].
-        * destruct (Hna t pos ser label0 a Hold) as (tgt & p' & Ea & Ho). exists tgt, p'. split; [exact Ea|]. exact (se_owns_old _ _ _ _ _ _ E _ _ _ Ho).
-        * inversion Es; subst. destruct Hact as [Hn|(-> & tgt & Ea)]; [discriminate Hn|]. inversion Ea; subst a. exists tgt, p. split; [reflexivity|].
-          exact (se_owns_h _ _ _ _ _ _ E).
+        * destruct (Hna t pos ser label0 a Hold) as (tgt & p' & Ea & Ho). exists tgt, p'. split; [exact Ea|].
+          destruct Ho as [Ho|[Ho Hu]]; [left; exact (se_owns_old _ _ _ _ _ _ E _ _ _ Ho)|right; split; [exact (se_owns_old _ _ _ _ _ _ E _ _ _ Ho)|exact (unbound_sub _ _ _ _ _ _ _ E Hu)]].
+        * inversion Es; subst. destruct Hact as [Hn|((tgt & Ea) & Hk)]; [discriminate Hn|]. inversion Ea; subst a. exists tgt, p. split; [reflexivity|].
+          destruct Hk as [->|[-> Hu]]; [left; exact (se_owns_h _ _ _ _ _ _ E)|right; split; [exact (se_owns_h _ _ _ _ _ _ E)|exact (unbound_sub _ _ _ _ _ _ _ E Hu)]].
       + exact (PropGrow.sub_SIMPLE _ _ _ _ _ _ E Hsi).
     - exact (PropGrow.sub_COH fn _ _ _ _ _ _ E HC).
   Qed.
 
-  Definition act_op (o : op) : Prop :=
-    match o with
-    | PSet _ _ _ | PGet _ | PHasBinding _ | PAssignFrom _ _ => True
-    | PObserve _ _ _ _ None => True
-    | PObserve _ KChanged _ _ (Some (false, _)) => True
-    | _ => False
-    end.
-
-  Theorem act_step fuel w o w' : SCA w -> COH w -> act_op o -> step1 fn rtl fuel w o = (w', None) -> SCA w' /\ COH w'.
+  Definition unbound_b (w : world) (p : nat) : bool :=
+    match lookup (w_props w) p with Some pr => match pr_updater pr with None => true | Some _ => false end | None => false end.
+  Lemma unbound_b_sound w p : unbound_b w p = true -> PropSimAct2.unbound w p.
   Proof.
-    intros HSC HC Ho H. destruct o; cbn [act_op] in Ho; try contradiction.
-    - (* PSet *) cbn [step1] in H. destruct (lookup (w_props w) p) as [pr|] eqn:Hp; [|discriminate H]. destruct (pr_updater pr) eqn:Hu; [discriminate H|].
-      destruct (assignment_coherent_act fn rtl fuel w p pr v w' HSC HC Hp Hu H) as (A1 & A2 & _). auto.
-    - (* PGet *) cbn [step1] in H. destruct (lookup (w_props w) p); [|discriminate H]. inversion H; subst w'. split; [apply SCA_log; exact HSC|exact HC].
-    - (* PHasBinding *) cbn [step1] in H. destruct (lookup (w_props w) p); [|discriminate H]. inversion H; subst w'. split; [apply SCA_log; exact HSC|exact HC].
-    - (* PObserve *) destruct act as [[[|] tgt]|].
-      + destruct k; contradiction.
-      + destruct k; try contradiction. apply (act_observe fuel w p KChanged label h (Some (false, tgt)) w' HSC HC); [right; split; [reflexivity|exists tgt; reflexivity]|exact H].
-      + apply (act_observe fuel w p k label h None w' HSC HC); [left; reflexivity|exact H].
-    - (* PAssignFrom *) cbn [step1] in H. destruct (lookup (w_props w) p) as [pr|] eqn:Hp; [|discriminate H]. destruct (lookup (w_props w) q) as [qr|]; [|discriminate H].
-      destruct (pr_updater pr) eqn:Hu; [discriminate H|].
-      destruct (assignment_coherent_act fn rtl fuel w p pr (pr_value qr) w' HSC HC Hp Hu H) as (A1 & A2 & _). auto.
+    unfold unbound_b, PropSimAct2.unbound, pview. destruct (lookup (w_props w) p) as [pr|]; [|discriminate]. destruct (pr_updater pr) eqn:Hu; [discriminate|].
+    intros _. exists (psigs_of pr). split; [reflexivity|exact Hu].
   Qed.
 
-  Fixpoint act_run_ok (fuel : nat) (w : world) (ops : list op) : Prop :=
-    match ops with
-    | [] => True
-    | o :: r => act_op o /\ snd (step1 fn rtl fuel w o) = None /\ act_run_ok fuel (step fn rtl fuel w o) r
+  Definition act2_op (w : world) (o : op) : Prop :=
+    match o with
+    | PObserve p KAbout _ _ (Some (false, _)) => unbound_b w p = true
+    | _ => PropGrowAct.act_op o
     end.
 
-  Theorem act_coherent fuel : forall ops w, SCA w -> COH w -> act_run_ok fuel w ops ->
-    SCA (fold_left (step fn rtl fuel) ops w) /\ COH (fold_left (step fn rtl fuel) ops w).
+  Theorem act2_step fuel w o w' : SCB w -> COH w -> act2_op w o -> step1 fn rtl fuel w o = (w', None) -> SCB w' /\ COH w'.
+  Proof.
+    intros HSC HC Ho H. destruct o; cbn [act2_op PropGrowAct.act_op] in Ho; try contradiction.
+    - (* PSet *) cbn [step1] in H. destruct (lookup (w_props w) p) as [pr|] eqn:Hp; [|discriminate H]. destruct (pr_updater pr) eqn:Hu; [discriminate H|].
+      destruct (assignment_coherent_act2 fn rtl fuel w p pr v w' HSC HC Hp Hu H) as (A1 & A2 & _). auto.
+    - (* PGet *) cbn [step1] in H. destruct (lookup (w_props w) p); [|discriminate H]. inversion H; subst w'. split; [apply SCB_log; exact HSC|exact HC].
+    - (* PHasBinding *) cbn [step1] in H. destruct (lookup (w_props w) p); [|discriminate H]. inversion H; subst w'. split; [apply SCB_log; exact HSC|exact HC].
+    - (* PObserve *) destruct act as [[[|] tgt]|].
+      + destruct k; contradiction.
+      + destruct k; try contradiction.
+        * apply (act2_observe fuel w p KAbout label h (Some (false, tgt)) w' HSC HC); [right; split; [exists tgt; reflexivity|right; split; [reflexivity|apply unbound_b_sound; exact Ho]]|exact H].
+        * apply (act2_observe fuel w p KChanged label h (Some (false, tgt)) w' HSC HC); [right; split; [exists tgt; reflexivity|left; reflexivity]|exact H].
+      + apply (act2_observe fuel w p k label h None w' HSC HC); [left; reflexivity|exact H].
+    - (* PAssignFrom *) cbn [step1] in H. destruct (lookup (w_props w) p) as [pr|] eqn:Hp; [|discriminate H]. destruct (lookup (w_props w) q) as [qr|]; [|discriminate H].
+      destruct (pr_updater pr) eqn:Hu; [discriminate H|].
+      destruct (assignment_coherent_act2 fn rtl fuel w p pr (pr_value qr) w' HSC HC Hp Hu H) as (A1 & A2 & _). auto.
+  Qed.
+
+  Fixpoint act2_run_ok (fuel : nat) (w : world) (ops : list op) : Prop :=
+    match ops with
+    | [] => True
+    | o :: r => act2_op w o /\ snd (step1 fn rtl fuel w o) = None /\ act2_run_ok fuel (step fn rtl fuel w o) r
+    end.
+
+  Theorem act2_coherent fuel : forall ops w, SCB w -> COH w -> act2_run_ok fuel w ops ->
+    SCB (fold_left (step fn rtl fuel) ops w) /\ COH (fold_left (step fn rtl fuel) ops w).
   Proof.
     induction ops as [|o r IH]; intros w HSC HC Hok; cbn [fold_left]; [auto|]. destruct Hok as (Ho & Hn & Hr).
     unfold step in *. destruct (step1 fn rtl fuel w o) as [w1 e] eqn:E. cbn [snd] in Hn. subst e.
-    destruct (act_step fuel w o w1 HSC HC Ho E) as [SC1 COH1].
-    apply IH; [apply SCA_log; exact SC1|exact COH1|exact Hr].
+    destruct (act2_step fuel w o w1 HSC HC Ho E) as [SC1 COH1].
+    apply IH; [apply SCB_log; exact SC1|exact COH1|exact Hr].
   Qed.
 
-  (* what coherence says about a bound property (PropSim.coherent_bound_equals_expression, for worlds with acting observers) *)
-  Theorem coherent_bound_equals_expression_act w q x pr z :
-    SCA w -> COH w -> PropSim.imm_of w q = Some x -> lookup (w_props w) q = Some pr ->
+  Theorem coherent_bound_equals_expression_act2 w q x pr z :
+    SCB w -> COH w -> PropSim.imm_of w q = Some x -> lookup (w_props w) q = Some pr ->
     PropCheck.den_node fn (values w) (b_root x) = Some z -> pr_value pr = z.
   Proof.
     intros (Hinv & Hna & Hsi) (s & HRel & HInv) Hi Hq Hd. pose proof HRel as (R1 & R2 & R3).
@@ -96,22 +111,21 @@ Section GrowAct.
     rewrite <- (R1 _ _ Hq). destruct (HInv q T Htr) as (_ & _ & E & _). apply E. intros p0 lid _ [].
   Qed.
 
-  (* end to end: a growing network, then observers that write and assignments *)
-  Theorem network_then_acting_observers_consistent fuel ops1 ops2 q x pr z :
+  Theorem network_then_observers_of_both_kinds_consistent fuel ops1 ops2 q x pr z :
     PropMove.grow3_run_ok fn rtl fuel world0 ops1 ->
-    act_run_ok fuel (run fn rtl fuel ops1) ops2 ->
+    act2_run_ok fuel (run fn rtl fuel ops1) ops2 ->
     let w := run fn rtl fuel (ops1 ++ ops2) in
     PropSim.imm_of w q = Some x -> lookup (w_props w) q = Some pr ->
     PropCheck.den_node fn (values w) (b_root x) = Some z -> pr_value pr = z.
   Proof.
     intros Hok1 Hok2 w Hi Hq Hd.
     destruct (PropMove.grow3_coherent fn rtl fuel ops1 world0 PropGrow.SC_world0 (PropGrow.COH_world0 fn) (PropMove.NOEMIT_world0) Hok1) as [HSC HC].
-    destruct (act_coherent fuel ops2 _ (SC_SCA _ HSC) HC Hok2) as [HSC2 HC2].
-    unfold w, run in *. rewrite fold_left_app in *. eapply coherent_bound_equals_expression_act; eauto.
+    destruct (act2_coherent fuel ops2 _ (SCA_SCB _ (SC_SCA _ HSC)) HC Hok2) as [HSC2 HC2].
+    unfold w, run in *. rewrite fold_left_app in *. eapply coherent_bound_equals_expression_act2; eauto.
   Qed.
 
   (* ------------------------------------------------------------------------------------------------------------------------------ *)
-  (* growth in ANY order: properties, observers that write, fresh immediate bindings - also once such observers exist *)
+  (* growth in ANY order with writing observers of both signals *)
   Notation F1 := (PropSim.F1 fn).
   Notation F2 := (PropSim.F2 fn).
   Notation F3 := (PropSim.F3 fn).
@@ -124,31 +138,34 @@ Section GrowAct.
   Notation ORD' := PropSimAct.ORD'.
   Notation GR := PropGrow.GR.
 
-  Lemma GR_SCA w w1 : GR w w1 -> pinv w1 -> SCA w -> SCA w1.
+  Lemma GR_SCB w w1 : GR w w1 -> pinv w1 -> SCB w -> SCB w1.
   Proof.
     intros (G1 & G2 & G3 & G4 & G5 & G6 & G7) Hinv1 (Hinv & Hna & Hsi). split; [exact Hinv1|]. split.
-    - intros t pos ser label a Hs. destruct (Hna t pos ser label a (G5 _ _ _ _ _ Hs)) as (tgt & p & Ea & Ho). exists tgt, p. split; [exact Ea|exact (G6 _ _ _ Ho)].
+    - intros t pos ser label a Hs. destruct (Hna t pos ser label a (G5 _ _ _ _ _ Hs)) as (tgt & p & Ea & Hor). exists tgt, p. split; [exact Ea|].
+      destruct Hor as [Ho|[Ho (u & Pu & Uu)]]; [left; exact (G6 _ _ _ Ho)|right; split; [exact (G6 _ _ _ Ho)|]].
+      destruct Ho as (vv & Pv & Tv). rewrite Pu in Pv. inversion Pv; subst vv. destruct (G7 p u t Pu Tv) as (v1 & P1 & _ & U1). exists v1. split; [exact P1|congruence].
     - intros q x Hx. rewrite G1 in Hx. eauto.
   Qed.
 
-  Lemma grow_new_act w p v :
-    SCA w -> COH w -> lookup (w_props w) p = None ->
-    let w' := set_props w (bind_key (w_props w) p (prop_new v)) in SCA w' /\ COH w'.
+  Lemma grow_new_b w p v :
+    SCB w -> COH w -> lookup (w_props w) p = None ->
+    let w' := set_props w (bind_key (w_props w) p (prop_new v)) in SCB w' /\ COH w'.
   Proof.
     intros (Hinv & Hna & Hsi) HC Hp w'.
     assert (Pn : pview w p = None) by (unfold pview; rewrite Hp; reflexivity).
     assert (IO : forall q, imm_of w' q = imm_of w q).
     { intros q. unfold PropSim.imm_of, w'; cbn [set_props w_props]. rewrite lookup_bind. destruct (Nat.eqb_spec q p) as [->|]; [rewrite Hp; reflexivity|reflexivity]. }
+    assert (PV : forall p0 vv, pview w p0 = Some vv -> pview w' p0 = Some vv).
+    { intros p0 vv Ev. unfold w'. rewrite pview_bind. destruct (Nat.eqb_spec p0 p) as [->|]; [congruence|exact Ev]. }
     split.
     - split; [apply pinv_new_prop; assumption|]. split.
-      + intros t pos ser label a Hs. destruct (Hna t pos ser label a Hs) as (tgt & p0 & Ea & (vv & Ev & Es)). exists tgt, p0. split; [exact Ea|].
-        exists vv. split; [|exact Es]. unfold w'. rewrite pview_bind. destruct (Nat.eqb_spec p0 p) as [->|]; [congruence|exact Ev].
+      + intros t pos ser label a Hs. destruct (Hna t pos ser label a Hs) as (tgt & p0 & Ea & Hor). exists tgt, p0. split; [exact Ea|].
+        destruct Hor as [(vv & Ev & Es)|[(vv & Ev & Es) (u & Pu & Uu)]]; [left; exists vv; split; [exact (PV _ _ Ev)|exact Es]|right; split; [exists vv; split; [exact (PV _ _ Ev)|exact Es]|exists u; split; [exact (PV _ _ Pu)|exact Uu]]].
       + intros q x Hx. rewrite IO in Hx. eauto.
     - destruct HC as (s & (R1 & R2 & R3) & HInv).
       assert (OR : forall p0 x, In x (ORD w p0) -> In x (ORD w' p0)).
       { intros p0 [q l] Hi. apply PropGrow.in_ORD in Hi. destruct Hi as (t & pos & ser & b & (vv & Ev & Es) & Hs & Hi). apply PropGrow.in_ORD.
-        exists t, pos, ser, b. split; [|split; [exact Hs|exact Hi]]. exists vv. split; [|exact Es].
-        unfold w'. rewrite pview_bind. destruct (Nat.eqb_spec p0 p) as [->|]; [congruence|exact Ev]. }
+        exists t, pos, ser, b. split; [|split; [exact Hs|exact Hi]]. exists vv. split; [exact (PV _ _ Ev)|exact Es]. }
       exists {| A.env := A.set_env (A.env s) p v; A.tr := A.tr s; A.oof := false |}. split.
       + split; [|split; [intros q; rewrite IO; apply R2|reflexivity]].
         intros p0 pr0 Hp0. unfold w' in Hp0; cbn [set_props w_props] in Hp0. rewrite lookup_bind in Hp0. cbn [A.env]. unfold A.set_env.
@@ -160,14 +177,14 @@ Section GrowAct.
         * intros t Ht. rewrite R2 in Ht. unfold PropSim.imm_of in Ht. rewrite Hp in Ht. discriminate Ht.
   Qed.
 
-  Lemma assign_fresh_act fuel w p pr b xb T w' :
-    SCA w -> COH w -> lookup (w_props w) p = Some pr -> pr_updater pr = None ->
+  Lemma assign_fresh_b fuel w p pr b xb T w' :
+    SCB w -> COH w -> lookup (w_props w) p = Some pr -> pr_updater pr = None -> pr_about pr = None ->
     get_bind w b = Some xb -> b_evp xb = 0 -> b_target xb = None -> (forall n, lookup (w_held w) n <> Some b) ->
     abs_tree (b_root xb) = Some T ->
     (forall s, Rel w s -> A.clean T /\ A.consis F1 F2 F3 (A.env s) [] p T /\ (forall p0 lid, In (p0, lid) (A.leaves T) -> values w p0 = Some (A.env s p0))) ->
-    assign_binding fn rtl fuel w p b = (w', None) -> SCA w' /\ COH w'.
+    assign_binding fn rtl fuel w p b = (w', None) -> SCB w' /\ COH w'.
   Proof.
-    intros (Hinv & Hna & Hsi) (s & HRel & HInv) Hp Hu Hb Hevp Htg Hheld HT Htree H.
+    intros (Hinv & Hna & Hsi) (s & HRel & HInv) Hp Hu Hab Hb Hevp Htg Hheld HT Htree H.
     destruct (Htree s HRel) as (HC & HN & HV). pose proof HRel as (R1 & R2 & R3).
     unfold assign_binding in H. rewrite Hp, Hu in H. cbn [ok] in H. rewrite Hp, Hb in H.
     set (w2 := set_props w (bind_key (w_props w) p (prop_set_updater pr (Some b)))) in *.
@@ -227,15 +244,20 @@ Section GrowAct.
         inversion Hq; subst prq. cbn [prop_set_updater pr_value]. exact (R1 _ _ Hp).
       - intros q. cbn [s4 A.tr]. unfold A.set_tr. rewrite IO4. destruct (Nat.eqb_spec q p) as [->|]; [|apply R2].
         cbn [bind_with_root b_root]. symmetry. exact Et. }
-    assert (SC4 : SCA w4).
+    assert (SC4 : SCB w4).
     { split; [exact Hinv4|]. split.
-      - intros t0 pos ser label act Hs. unfold slot_at in Hs. rewrite T4 in Hs. destruct (Hna t0 pos ser label act Hs) as (tgt & p0 & Ea & (vv & Evv & Es)).
-        exists tgt, p0. split; [exact Ea|]. unfold owns, pview. rewrite L4. unfold pview in Evv. destruct (Nat.eqb_spec p0 p) as [->|]; [|exists vv; auto].
-        rewrite Hp in Evv. assert (vv = psigs_of pr) by congruence. subst vv. eexists. split; [reflexivity|]. rewrite psig_set_updater. exact Es.
+      - assert (OW : forall p0 k0 t0, owns w p0 k0 t0 -> owns w4 p0 k0 t0).
+        { intros p0 k0 t0 (vv & Evv & Es). unfold owns, pview. rewrite L4. unfold pview in Evv. destruct (Nat.eqb_spec p0 p) as [->|]; [|exists vv; auto].
+          rewrite Hp in Evv. assert (vv = psigs_of pr) by congruence. subst vv. eexists. split; [reflexivity|]. rewrite psig_set_updater. exact Es. }
+        intros t0 pos ser label act Hs. unfold slot_at in Hs. rewrite T4 in Hs. destruct (Hna t0 pos ser label act Hs) as (tgt & p0 & Ea & Hor).
+        exists tgt, p0. split; [exact Ea|]. destruct Hor as [Ho|[Ho (u & Pu & Uu)]]; [left; exact (OW _ _ _ Ho)|right; split; [exact (OW _ _ _ Ho)|]].
+        assert (Hne : p0 <> p).
+        { intros ->. destruct Ho as (vv & Evv & Es). unfold pview in Evv. rewrite Hp in Evv. inversion Evv; subst vv. cbn in Es. congruence. }
+        exists u. split; [|exact Uu]. unfold pview in *. rewrite L4. destruct (Nat.eqb_spec p0 p); [contradiction|exact Pu].
       - intros q x Hx. rewrite IO4 in Hx. destruct (Nat.eqb_spec q p) as [->|]; [|eauto]. inversion Hx; subst x. cbn [bind_with_root b_root]. congruence. }
-    destruct (sim_set' fn rtl (ORD' w4) fuel w4 p v w' s4 SC4 (fun _ => eq_refl) Rel4 H) as (SC' & FR' & Rel').
+    destruct (sim_set2 fn rtl (ORD' w4) (PropSimAct2.ORDA w4) fuel w4 p v w' s4 SC4 (conj (fun _ => eq_refl) (fun _ => eq_refl)) Rel4 H) as (SC' & FR' & Rel').
     split; [exact SC'|].
-    exists (C.set' F1 F2 F3 (ORD' w4) fuel s4 p v). split; [exact Rel'|].
+    exists (C2.set2 F1 F2 F3 (ORD' w4) (PropSimAct2.ORDA w4) fuel s4 p v). split; [exact Rel'|].
     apply (PropGrow.Inv_order_incl fn (C.lorder (ORD' w4))); [intros p0 x Hi; rewrite (FR_ORD _ _ p0 FR'); rewrite lorder_ORD' in Hi; exact Hi|].
     (* everything but the value of p itself is in order *)
     assert (Pre : AP.PreInv F1 F2 F3 (C.lorder (ORD' w4)) s4 [] p).
@@ -249,17 +271,21 @@ Section GrowAct.
       - destruct (HInv q t0 Ht0) as (A1 & A2 & A3 & A4). repeat split; auto. intros p0 lid Hi. rewrite lorder_ORD'. apply O4. apply A4. exact Hi. }
     assert (Hv : forall t0, A.tr s4 p = Some t0 -> A.nopend [] p t0 -> v = A.den F1 F2 F3 (A.env s4) t0).
     { intros t0 Ht0 _. cbn [s4 A.tr A.env] in *. unfold A.set_tr in Ht0. rewrite Nat.eqb_refl in Ht0. inversion Ht0; subst t0. exact Hden. }
-    unfold C.set' in *. destruct (Z.eqb v (A.env s4 p)) eqn:Ez.
-    - (* the new expression gives the value the property has already *)
-      apply Z.eqb_eq in Ez. intros q t0 Ht0. destruct (Pre q t0 Ht0) as (A1 & A2 & A3 & A4). repeat split; auto.
+    (* the fresh property p has no valueAboutToChange table: no about-phase *)
+    assert (EA : PropSimAct2.ORDA w4 p = []).
+    { unfold PropSimAct2.ORDA, pview. rewrite L4, Nat.eqb_refl. cbn [psigs_of prop_set_updater ps_about pr_about]. rewrite Hab. reflexivity. }
+    destruct fuel as [|fuel']; [destruct Rel' as (_ & _ & Q3); cbn in Q3; discriminate Q3|].
+    cbn [C2.set2] in *. unfold C2.set_body2 in *. destruct (Z.eqb v (A.env s4 p)) eqn:Ez.
+    - apply Z.eqb_eq in Ez. intros q t0 Ht0. destruct (Pre q t0 Ht0) as (A1 & A2 & A3 & A4). repeat split; auto.
       intros Hn. destruct (Nat.eq_dec q p) as [->|Hne]; [|auto]. rewrite <- Ez. apply Hv; assumption.
-    - pose proof (AP.Inv_env_change F1 F2 F3 (C.lorder (ORD' w4)) s4 [] p v Pre Hv) as IE.
-      apply (proj2 (C.notify'_ok F1 F2 F3 (ORD' w4) fuel)); [exact IE|]. destruct Rel' as (_ & _ & Q3). exact Q3.
+    - unfold C2.about_body2 in *. rewrite EA in *. cbn [fold_left] in *. change (A.oof s4) with false in *. cbv iota in *.
+      pose proof (AP.Inv_env_change F1 F2 F3 (C.lorder (ORD' w4)) s4 [] p v Pre Hv) as IE.
+      apply (proj2 (proj1 (proj2 (C2.both_ok F1 F2 F3 (ORD' w4) (PropSimAct2.ORDA w4) (S fuel'))))); [exact IE|]. destruct Rel' as (_ & _ & Q3). exact Q3.
   Qed.
 
-  Lemma grow_bind_act fuel w p e w' :
-    SCA w -> COH w -> lookup (w_props w) p = None ->
-    step1 fn rtl fuel w (PBind p e MImmediate) = (w', None) -> SCA w' /\ COH w'.
+  Lemma grow_bind_b fuel w p e w' :
+    SCB w -> COH w -> lookup (w_props w) p = None ->
+    step1 fn rtl fuel w (PBind p e MImmediate) = (w', None) -> SCB w' /\ COH w'.
   Proof.
     intros HSC HC Hp H. pose proof HSC as (Hinv & Hna & Hsi). cbn [step1] in H.
     destruct (make_binding fn rtl w e MImmediate) as [[w1 b]|x] eqn:Hm; [|discriminate H].
@@ -268,12 +294,12 @@ Section GrowAct.
     assert (Vp : values w1 p = None) by (destruct G as (_ & _ & G3 & _); rewrite G3; unfold values; rewrite Hp; reflexivity).
     assert (Hp1 : lookup (w_props w1) p = None) by (unfold values in Vp; destruct (lookup (w_props w1) p); [discriminate Vp|reflexivity]).
     rewrite Hp1 in H.
-    pose proof (GR_SCA _ _ G Hinv1 HSC) as SC1. pose proof (PropGrow.GR_COH fn _ _ G HC) as COH1.
-    destruct (grow_new_act w1 p 0%Z SC1 COH1 Hp1) as (SCn & COHn).
+    pose proof (GR_SCB _ _ G Hinv1 HSC) as SC1. pose proof (PropGrow.GR_COH fn _ _ G HC) as COH1.
+    destruct (grow_new_b w1 p 0%Z SC1 COH1 Hp1) as (SCn & COHn).
     set (w1n := set_props w1 (bind_key (w_props w1) p (prop_new 0%Z))) in *.
     set (env0 := fun p0 => match values w p0 with Some v => v | None => 0%Z end).
     destruct (Htree env0 p) as (T & HT & _); [intros p0 v0 E; unfold env0; rewrite E; reflexivity|].
-    apply (assign_fresh_act fuel w1n p (prop_new 0%Z) b xb T w' SCn COHn); auto.
+    apply (assign_fresh_b fuel w1n p (prop_new 0%Z) b xb T w' SCn COHn); auto.
     - unfold w1n; cbn [set_props w_props]. apply lookup_bind_same.
     - intros s (R1 & R2 & R3).
       destruct (Htree (A.env s) p) as (T' & HT' & C' & N' & V').
@@ -285,46 +311,44 @@ Section GrowAct.
       unfold values, w1n; cbn [set_props w_props]. rewrite lookup_bind_other by exact Hne. exact V'.
   Qed.
 
-  Definition grow_act_op (w : world) (o : op) : Prop :=
+  Definition grow_act2_op (w : world) (o : op) : Prop :=
     match o with
     | PNew _ _ => True
     | PBind p _ MImmediate => lookup (w_props w) p = None
-    | _ => act_op o
+    | _ => act2_op w o
     end.
 
-  Theorem grow_act_step fuel w o w' : SCA w -> COH w -> grow_act_op w o -> step1 fn rtl fuel w o = (w', None) -> SCA w' /\ COH w'.
+  Theorem grow_act2_step fuel w o w' : SCB w -> COH w -> grow_act2_op w o -> step1 fn rtl fuel w o = (w', None) -> SCB w' /\ COH w'.
   Proof.
-    intros HSC HC Ho H. destruct o; cbn [grow_act_op] in Ho; try (exact (act_step fuel w _ w' HSC HC Ho H)).
-    - (* PNew *) cbn [step1] in H. destruct (lookup (w_props w) p) eqn:Hp; [discriminate H|]. inversion H; subst w'. apply grow_new_act; assumption.
-    - (* PBind *) destruct m; [|destruct Ho]. apply (grow_bind_act fuel w p e w'); assumption.
+    intros HSC HC Ho H. destruct o; cbn [grow_act2_op] in Ho; try (exact (act2_step fuel w _ w' HSC HC Ho H)).
+    - (* PNew *) cbn [step1] in H. destruct (lookup (w_props w) p) eqn:Hp; [discriminate H|]. inversion H; subst w'. apply grow_new_b; assumption.
+    - (* PBind *) destruct m; [|destruct Ho]. apply (grow_bind_b fuel w p e w'); assumption.
   Qed.
 
-  Fixpoint grow_act_run_ok (fuel : nat) (w : world) (ops : list op) : Prop :=
+  Fixpoint grow_act2_run_ok (fuel : nat) (w : world) (ops : list op) : Prop :=
     match ops with
     | [] => True
-    | o :: r => grow_act_op w o /\ snd (step1 fn rtl fuel w o) = None /\ grow_act_run_ok fuel (step fn rtl fuel w o) r
+    | o :: r => grow_act2_op w o /\ snd (step1 fn rtl fuel w o) = None /\ grow_act2_run_ok fuel (step fn rtl fuel w o) r
     end.
 
-  Theorem grow_act_coherent fuel : forall ops w, SCA w -> COH w -> grow_act_run_ok fuel w ops ->
-    SCA (fold_left (step fn rtl fuel) ops w) /\ COH (fold_left (step fn rtl fuel) ops w).
+  Theorem grow_act2_coherent fuel : forall ops w, SCB w -> COH w -> grow_act2_run_ok fuel w ops ->
+    SCB (fold_left (step fn rtl fuel) ops w) /\ COH (fold_left (step fn rtl fuel) ops w).
   Proof.
     induction ops as [|o r IH]; intros w HSC HC Hok; cbn [fold_left]; [auto|]. destruct Hok as (Ho & Hn & Hr).
     unfold step in *. destruct (step1 fn rtl fuel w o) as [w1 e] eqn:E. cbn [snd] in Hn. subst e.
-    destruct (grow_act_step fuel w o w1 HSC HC Ho E) as [SC1 COH1].
-    apply IH; [apply SCA_log; exact SC1|exact COH1|exact Hr].
+    destruct (grow_act2_step fuel w o w1 HSC HC Ho E) as [SC1 COH1].
+    apply IH; [apply SCB_log; exact SC1|exact COH1|exact Hr].
   Qed.
 
-  (* C02 for networks that grow in ANY order - new properties, observers (plain, or writing another property when told of a change),
-     fresh immediately bound properties over any existing ones, assignments by every path: in every world reached, every immediately
-     bound property equals its expression recomputed from scratch *)
-  Theorem grow_act_reachable_consistent fuel ops q x pr z :
-    grow_act_run_ok fuel world0 ops ->
+  (* C02 for networks growing in ANY order with writing observers of both signals *)
+  Theorem grow_act2_reachable_consistent fuel ops q x pr z :
+    grow_act2_run_ok fuel world0 ops ->
     let w := run fn rtl fuel ops in
     PropSim.imm_of w q = Some x -> lookup (w_props w) q = Some pr ->
     PropCheck.den_node fn (values w) (b_root x) = Some z -> pr_value pr = z.
   Proof.
     intros Hok w Hi Hq Hd.
-    destruct (grow_act_coherent fuel ops world0 (SC_SCA _ PropGrow.SC_world0) (PropGrow.COH_world0 fn) Hok) as [HSC HC].
-    eapply coherent_bound_equals_expression_act; eauto.
+    destruct (grow_act2_coherent fuel ops world0 (SCA_SCB _ (SC_SCA _ PropGrow.SC_world0)) (PropGrow.COH_world0 fn) Hok) as [HSC HC].
+    eapply coherent_bound_equals_expression_act2; eauto.
   Qed.
-End GrowAct.
+End GrowAct2.
